@@ -330,7 +330,7 @@ def honest_event(env, drv, weights):
     running = not drv.stopped_flag()
     w = {EV_START: 0.2 if running else 14, EV_STOP: 1.2 if running else 0.2, EV_SHUTDOWN: 0.8 if running else 0.1,
          EV_COMMIT: 2, "reply": 14, EV_PLAN: 6, EV_PROC_FIRE: 10, "commit_reply": 8, EV_FIRE_RETRY: 12,
-         EV_FIRE_COMMIT_RETRY: 6, EV_TICK: 2, "append": 1.5, "retain": 0.3}
+         EV_FIRE_COMMIT_RETRY: 6, EV_TICK: 2, "append": 3.0, "retain": 0.3}
     if weights:
         w.update(weights)
     cands = []
@@ -416,15 +416,25 @@ def honest_run(rnd, cfg, log, store, steps, weights=None, fault=0.12, first=None
         ev = honest_event(env, drv, weights)
         if ev is not None:
             deliver(ev)
+    env.drain_from, env.drain_done = None, False
     if drain:
+        env.drain_from = len(events)
         env.fault = 0
         calm = {EV_START: 0, EV_STOP: 0, EV_SHUTDOWN: 0, EV_COMMIT: 0, EV_PLAN: 0, "append": 0, "retain": 0, EV_TICK: 0}
+        empties = 0
         for _ in range(drain):
             if len(drv.plan) < 3:
                 deliver((EV_PLAN, 0, 0))
             ev = honest_event(env, drv, calm)
             if ev is not None:
                 deliver(ev)
+                if ev[0] == EV_FETCH_OK:
+                    empties = empties + 1 if (not ev[1] and not ev[2]) else 0
+            # the end of the log has been reached and confirmed (three empty replies in a row, nothing being processed):
+            # further polling adds nothing
+            if empties >= 3 and not [d for d in drv.procs if not d.called]:
+                env.drain_done = True
+                break
     return events, drv, env
 
 
